@@ -112,7 +112,7 @@ impl LuaValue {
     /// possible and return the same value otherwise.
     pub fn string_coercion(self) -> Self {
         match &self {
-            Self::Number(value) => Some(Self::from(value.to_string())),
+            Self::Number(value) => number_to_string(*value).map(Self::from),
             _ => None,
         }
         .unwrap_or(self)
@@ -125,6 +125,27 @@ impl LuaValue {
             _ => LuaValue::Unknown,
         }
     }
+}
+
+/// Converts a number to a string only when every Lua version writes it the same way: Lua 5.1
+/// prints at most 14 significant digits and switches to the exponent notation outside of
+/// [1e-4, 1e14), Luau prints the shortest digits that round-trip with different thresholds.
+fn number_to_string(value: f64) -> Option<String> {
+    if !value.is_finite() {
+        return None;
+    }
+    let magnitude = value.abs();
+    if magnitude != 0.0 && !(1e-4..1e14).contains(&magnitude) {
+        return None;
+    }
+    let result = value.to_string();
+    let significant_digits = result
+        .chars()
+        .filter(char::is_ascii_digit)
+        .skip_while(|digit| *digit == '0')
+        .count();
+
+    (significant_digits <= 14).then_some(result)
 }
 
 impl From<bool> for LuaValue {
